@@ -96,17 +96,22 @@ Fixpoint present_keys (rows : list (option sval)) : list bytes :=
   | None :: r => present_keys r
   end.
 
-(** one zone of [build_all_filtered]: the field is considered only if the FIRST event of the
-    zone has it; zones without a value get no entry *)
+(** does [dynamic_keys] of the zone contain the field?  Pinned tree: the keys of the FIRST
+    event only ([surf_keys_from_first_event] = true, read from the Rust text); otherwise the
+    keys of every event. *)
+Definition is_some {A} (o : option A) : bool := match o with Some _ => true | None => false end.
+Definition zone_has_field (rows : list (option sval)) : bool :=
+  if surf_keys_from_first_event then match rows with r :: _ => is_some r | [] => false end
+  else existsb is_some rows.
+
+(** one zone of [build_all_filtered]; zones without a value get no entry *)
 Definition zone_entry (z : zone) : option (N * trie) :=
-  match snd z with
-  | Some _ :: _ =>
-      match present_keys (snd z) with
-      | [] => None
-      | vals => Some (fst z, t_build (key_dedup (key_sort vals)))
-      end
-  | _ => None
-  end.
+  if zone_has_field (snd z) then
+    match present_keys (snd z) with
+    | [] => None
+    | vals => Some (fst z, t_build (key_dedup (key_sort vals)))
+    end
+  else None.
 
 Fixpoint entries_of (zs : list zone) : list (N * trie) :=
   match zs with
@@ -208,16 +213,13 @@ Inductive kclass :=
 | SurfCrossLane.           (* the satisfying row and the probe are encoded in different lanes *)
 
 Definition known_class (rows : list (option sval)) (v p : sval) : option kclass :=
-  match rows with
-  | Some _ :: _ =>
-      if saturates v || saturates p then Some SurfSaturatedFloat
-      else
-        match lane_of v, lane_of p with
-        | Some a, Some b => if lane_eqb a b then None else Some SurfCrossLane
-        | _, _ => None
-        end
-  | _ => Some SurfFirstRowLacksField
-  end.
+  if negb (zone_has_field rows) then Some SurfFirstRowLacksField
+  else if saturates v || saturates p then Some SurfSaturatedFloat
+  else
+    match lane_of v, lane_of p with
+    | Some a, Some b => if lane_eqb a b then None else Some SurfCrossLane
+    | _, _ => None
+    end.
 
 (** audit of a result: every zone that holds a satisfying row but is missing from [res],
     with the known class of each satisfying row ([None] = no known class) *)
